@@ -10,8 +10,19 @@ from ..model import AnalysisError, unparse
 from ..report import RuleResult
 from ..roles import bound_from, calls, returned_names
 from ..tables import WriterTables
-from ._c01_paths import Paths, Sym, attr_name, conjuncts, expand_generators, neg, default_of, kind_of, kw, make_call_eval, never_none_fields, record_fields, show_set, sources
+from ._c01_paths import Paths, Sym, attr_name, conjuncts, expand_generators, neg, default_of, kind_of, kw, make_call_eval, never_none_fields, norm, record_fields, show_set, sources, specialise, view
 from .c06 import rule_own as _c06_own
+
+
+class _Tables(WriterTables):
+    """KEY_MAP and the writer's skip list only: the C01 rules do not consult the route table of update_field, so its shape is not
+    theirs to judge (the properties that use it do)."""
+
+    def _dispatch(self):
+        pass
+
+    def _handler_reads(self):
+        pass
 
 
 def _init_params(K):
@@ -47,7 +58,7 @@ def rule_schema(ctx) -> RuleResult:
         floor=800,
     )
     p = ctx.p
-    t = WriterTables(p)
+    t = _Tables(p)
     ent, ety = p.cls("Entity"), p.cls("EntityType")
     n_cls = 0
     for K in p.classes:
@@ -134,7 +145,7 @@ def rule_fetchkey(ctx) -> RuleResult:
         floor=15,
     )
     p = ctx.p
-    t = WriterTables(p)
+    t = _Tables(p)
     ent = p.cls("Entity")
     wsc = p.cls("Workspace")
     seen = set()
@@ -145,14 +156,14 @@ def rule_fetchkey(ctx) -> RuleResult:
             for name, pr in c.props.items():
                 if pr.getter is None or pr.getter in seen or K.lookup(name)[2] is not pr:
                     continue
-                fc = _fetch_calls(ctx.view(pr.getter), wsc)
+                fc = _fetch_calls(view(ctx, pr.getter), wsc)
                 if not fc:
                     continue
                 seen.add(pr.getter)
                 st = K.lookup(name)[2].setter
                 routes = set()
                 if st is not None:
-                    sv = ctx.view(st)
+                    sv = view(ctx, st)
                     S = Sym(sv.node)
                     for n in ast.walk(sv.node):
                         if isinstance(n, ast.Call) and attr_name(n) == "update_attribute" and len(n.args) > 1 and S.text(n.args[0]) == "self" and isinstance(_const(S, n.args[1]), str):
@@ -178,7 +189,7 @@ def rule_fetchkey(ctx) -> RuleResult:
     # kind -> container table str_from_type.
     flat = ("Data", "Groups", "Objects")
     fm = p.func("Workspace.fetch_metadata")
-    fmv = ctx.view(fm)
+    fmv = view(ctx, fm)
     S, ios = _io_target(fmv, "fetch_metadata")
     if not ios:
         raise AnalysisError("Workspace.fetch_metadata: the call of H5Reader.fetch_metadata not found")
@@ -200,7 +211,7 @@ def rule_fetchkey(ctx) -> RuleResult:
                  "Entity.metadata is assignable on Data; the writer stores it under Data/<uid>/Metadata, the reader looks under Objects: "
                  "metadata assigned to a data set is gone after re-opening")
     fa = p.func("Workspace.fetch_array_attribute")
-    fav = ctx.view(fa)
+    fav = view(ctx, fa)
     S, ios = _io_target(fav, "fetch_array_attribute")
     src = set()
     for c in ios:
@@ -252,6 +263,29 @@ def _accessor_helpers(p, c, pr, refs) -> set:
     return own
 
 
+def _owners(p, c, fn, refs, _seen=None) -> set:
+    """The methods a private helper of class c works for: everything that refers to it, private helpers of c followed up to their
+    own users.  Empty when fn is not a private method of c or has a user outside the class (then it stands for itself)."""
+    if not (fn.name.startswith("_") and not fn.name.startswith("__") and fn.kind == "method" and c.methods.get(fn.name) is fn):
+        return set()
+    if any(sub.own(fn.name) is not None for sub in p.subclasses(c, strict=True)):
+        return set()
+    seen = _seen if _seen is not None else set()
+    seen.add(fn)
+    out = set()
+    users = refs.get(fn.name, set()) - {fn}
+    if not users:
+        return set()
+    for u in users:
+        if u.cls is not c:
+            return set()
+        if u in seen:
+            continue
+        up = _owners(p, c, u, refs, seen) if u.name.startswith("_") and not u.name.startswith("__") and u.kind == "method" else set()
+        out |= up if up else {u}
+    return out
+
+
 def rule_lazy(ctx) -> RuleResult:
     res = RuleResult(
         "C01.LAZY",
@@ -278,7 +312,7 @@ def rule_lazy(ctx) -> RuleResult:
                     continue
                 # lazily loaded: every path of the getter (helpers expanded) to a <...>.fetch_*() call implies `self._<name> is None`
                 # (nested if, guard clause returning the cached value, merged with other conditions: all the same fact)
-                gv = ctx.view(g).node
+                gv = view(ctx, g).node
                 if not any(isinstance(x, ast.Call) and isinstance(x.func, ast.Attribute) and x.func.attr.startswith("fetch_") for x in ast.walk(gv)):
                     continue
                 P = Paths(gv)
@@ -311,6 +345,12 @@ def rule_lazy(ctx) -> RuleResult:
                     if key in LAZY_EXCEPTIONS:
                         res.inst(f"{fn.qualname} reads self.{fld} directly — accepted: {LAZY_EXCEPTIONS[key]}")
                         res.notes.append(f"{fn.qualname} reads self.{fld}: {LAZY_EXCEPTIONS[key]}")
+                        continue
+                    # a private helper is part of the methods that use it: when all of them are accepted readers, so is the helper
+                    owners = _owners(p, c, fn, refs)
+                    if owners and all((c.name, o.prop or o.name, fld) in LAZY_EXCEPTIONS for o in owners):
+                        why = LAZY_EXCEPTIONS[(c.name, sorted(o.prop or o.name for o in owners)[0], fld)]
+                        res.inst(f"{fn.qualname} (helper of {sorted(o.qualname for o in owners)}) reads self.{fld} directly — accepted: {why}")
                         continue
                     res.inst(f"{fn.qualname} reads self.{fld} behind the lazy getter", nontrivial=True, ok=False)
                     res.find(c.name, fn.prop or fn.name, "reads the backing field of a lazily loaded attribute directly", f"{fn.module.relpath}:{uses[0].lineno}",
@@ -348,7 +388,7 @@ def rule_pgw(ctx) -> RuleResult:
             continue
         # normalised body: a private helper that stores / persists is part of the setter; a list mutated through a local alias
         # (`props = self._properties; props.remove(x)`) is a store of the field
-        node = ctx.view(fn).node
+        node = view(ctx, fn).node
         g = CFG(node)
         S = Sym(node)
 
@@ -462,7 +502,7 @@ def _uid_registries(ctx, ws) -> list:
         if fn in seen or len(seen) > 6:
             continue
         seen.add(fn)
-        v = ctx.view(fn)
+        v = view(ctx, fn)
         for x in ast.walk(v.node):
             if isinstance(x, ast.Attribute) and isinstance(x.value, ast.Name) and x.value.id == "self":
                 named.add(x.attr)
@@ -470,7 +510,7 @@ def _uid_registries(ctx, ws) -> list:
                 named.add(x.value)
             elif isinstance(x, ast.Call):
                 try:
-                    callee = ctx.norm._callee(v, x)
+                    callee = norm(ctx)._callee(v, x)
                 except Exception:  # pragma: no cover
                     callee = None
                 if callee is not None and callee.cls is not None and ws in callee.cls.mro:
@@ -502,6 +542,27 @@ def _reset_nodes(P, field):
 def _is_setattr_empty(P, c, name_text, raw=False):
     return isinstance(c, ast.Call) and isinstance(c.func, ast.Name) and c.func.id == "setattr" and len(c.args) == 3 and unparse(c.args[0]) == "self" \
         and (unparse(c.args[1]) if raw else P.text(c.args[1])) == name_text and _is_empty_container(P.X(c.args[2]))
+
+
+def _map_store(fn_node, names):
+    """(statement, value expression) of the store of an entry into one of the named mappings, however it is spelled:
+    `m[k] = v`, `m.update({k: v for ...})`, `m.update((k, v) for ...)`, `m.update({k: v})`, `m.setdefault(k, v)`."""
+    for st in ast.walk(fn_node):
+        if isinstance(st, ast.Assign) and isinstance(st.targets[0], ast.Subscript) and unparse(st.targets[0].value) in names:
+            return st, st.value
+        if isinstance(st, ast.Expr) and isinstance(st.value, ast.Call) and isinstance(st.value.func, ast.Attribute) and unparse(st.value.func.value) in names:
+            call = st.value
+            if call.func.attr == "update" and len(call.args) == 1 and not call.keywords:
+                a = call.args[0]
+                if isinstance(a, ast.DictComp):
+                    return st, a.value
+                if isinstance(a, ast.Dict) and len(a.values) == 1 and a.keys[0] is not None:
+                    return st, a.values[0]
+                if isinstance(a, (ast.GeneratorExp, ast.ListComp)) and isinstance(a.elt, ast.Tuple) and len(a.elt.elts) == 2:
+                    return st, a.elt.elts[1]
+            if call.func.attr == "setdefault" and len(call.args) == 2:
+                return st, call.args[1]
+    return None, None
 
 
 def _pairs_loop(P, loop):
@@ -545,7 +606,7 @@ def rule_flow(ctx) -> RuleResult:
         if name not in cls.methods:
             raise AnalysisError(f"anchor {cls.name}.{name} not found")
         # (a generator helper feeding a loop is expanded into that loop: the loop body and the generator body are one loop)
-        return cls.methods[name], expand_generators(ctx, ctx.view(cls.methods[name]))
+        return cls.methods[name], expand_generators(ctx, view(ctx, cls.methods[name]))
 
     # Every site below is found by what it does (the call it makes, the field it stores) in the normalised body (private helpers
     # expanded, hoisted tables substituted); locals are named by role; conditions are compared as sets of necessary
@@ -776,7 +837,7 @@ def rule_flow(ctx) -> RuleResult:
 
     rc0, rc = anchor(R, "fetch_children")
     ret_names = returned_names(rc.node)
-    asg = next((a for a in ast.walk(rc.node) if isinstance(a, ast.Assign) and isinstance(a.targets[0], ast.Subscript) and unparse(a.targets[0].value) in ret_names), None)
+    asg, kind_expr = _map_store(rc.node, ret_names)
     if asg is None:
         raise AnalysisError("H5Reader.fetch_children: children[...] assignment not found")
     P = Paths(rc.node)
@@ -806,7 +867,7 @@ def rule_flow(ctx) -> RuleResult:
         "a child container (Data / Groups / Objects) is no longer listed: those children vanish on re-open")
     P = Paths(rc.node)
     for cont, want in (("Data", "Data"), ("Groups", "Group"), ("Objects", "ObjectBase")):
-        got = _fold_str(P.X(asg.value), cont, ctype)
+        got = _fold_str(P.X(kind_expr), cont, ctype)
         ok = got in kinds and kinds.get(got) == want
         chk(ok, f"H5Reader.fetch_children maps container {cont!r} to kind {got!r} -> load_entity class {kinds.get(got)}", "H5Reader", "fetch_children",
             f"container {cont!r} maps to kind {got!r} ({kinds.get(got)})", rc0.where, f"children found under {cont} are loaded as the wrong kind or not at all")
@@ -834,7 +895,7 @@ def rule_unlink(ctx) -> RuleResult:
     rc0 = ws.methods.get("remove_children")
     if rc0 is None or len(rc0.params) < 3:
         raise AnalysisError("anchor Workspace.remove_children(parent, children) not found")
-    rc = ctx.view(rc0)
+    rc = view(ctx, rc0)
     par_p, list_p = rc0.params[1], rc0.params[2]
     P0 = Paths(rc.node)
     loops = [lp for lp in _loops(rc.node) if isinstance(lp.target, ast.Name) and P0.iter_text(lp) == list_p]
@@ -878,15 +939,16 @@ def rule_unlink(ctx) -> RuleResult:
     re0 = W.methods.get("remove_entity")
     if re0 is None or len(re0.params) < 4:
         raise AnalysisError("anchor H5Writer.remove_entity(file, uid, ref_type, parent) not found")
-    rv = ctx.view(re0)
+    rv = view(ctx, re0)
     uid_p, ref_p, par_p = re0.params[-3], re0.params[-2], re0.params[-1]
     for cont in ("Data", "Groups", "Objects"):
-        P = Paths(rv.node, {uid_p: "R_uid", par_p: "R_parent"}, consts={ref_p: cont})
+        # the code that runs for this container (branches on ref_type taken, one-entry tables / loops over them resolved)
+        P = Paths(specialise(rv.node, {ref_p: cont}), {uid_p: "R_uid", par_p: "R_parent"}, consts={ref_p: cont})
         # the node of the entity: `del <flat container>[<uid string>]`, the container being indexed by ref_type
         dels = P.stmt_nodes(lambda s: isinstance(s, ast.Delete) and any(
             isinstance(t, ast.Subscript) and P.text(t.slice) == "as_str_if_uuid(R_uid)" and isinstance(P.X(t.value), ast.Subscript) and unparse(P.X(t.value).slice) == ref_p for t in s.targets))
         nec = P.necessary([P.g.entry], dels) if dels else frozenset([False])
-        guard = frozenset(f for f in nec if f[0] == "lit" and f[2] and f[1].startswith("as_str_if_uuid(R_uid) in "))
+        guard = frozenset(f for f in nec if isinstance(f, tuple) and f[0] == "lit" and f[2] and f[1].startswith("as_str_if_uuid(R_uid) in "))
         ok = bool(dels) and nec == guard and P.must([P.g.entry], dels, guard | _present(P, dels))
         chk(ok, f"H5Writer.remove_entity({cont}): the node is deleted whenever it exists (conditions: {show_set(nec)})", "H5Writer", "remove_entity",
             "the node of the entity is deleted only under an extra condition", re0.where,
@@ -927,7 +989,7 @@ def rule_stale(ctx) -> RuleResult:
         fn0 = W.methods.get(name)
         if fn0 is None or len(fn0.params) < 3:
             raise AnalysisError(f"anchor H5Writer.{name}(file, entity, ...) not found")
-        fn = expand_generators(ctx, ctx.view(fn0))
+        fn = expand_generators(ctx, view(ctx, fn0))
         bad = []
         for kname, hint in kinds:
             K = p.cls(kname, hint)
@@ -978,7 +1040,7 @@ def rule_ident(ctx) -> RuleResult:
         # the identifier field = what the getter returns
         fields = {x.attr for r in ast.walk(pr.getter.node) if isinstance(r, ast.Return) and r.value is not None for x in ast.walk(r.value)
                   if isinstance(x, ast.Attribute) and isinstance(x.value, ast.Name) and x.value.id == "self"}
-        sv = expand_generators(ctx, ctx.view(pr.setter))
+        sv = expand_generators(ctx, view(ctx, pr.setter))
         P = Paths(sv.node)
         stores = P.stmt_nodes(lambda s: any(_self_store(s, f) for f in fields))
         if not stores:
